@@ -99,6 +99,10 @@ def gen_module(rng, size: int = 3, classes: bool = True) -> str:
         out += block(4)
         out.append(f"    return {expr()}")
         out.append("")
+    # module-level loop: `break` -> `return` (BreakContinueReplacement) is rejected by the compiler there
+    if rng.random() < 0.6:
+        out += [f"for _i in range({rng.choice([2, 3])}):", f"    if _i == {rng.choice([0, 1])}:", f"        {rng.choice(['break', 'continue', 'break'])}",
+                f"    LEVEL = _i + {nums()}", ""]
     if not classes:
         return "\n".join(out) + "\n"
     # classes for the inheritance operators
@@ -106,7 +110,8 @@ def gen_module(rng, size: int = 3, classes: bool = True) -> str:
             "    def value(self, a=1, b=2, c=3):", f"        return {expr()}", "",
             "    def other(self):", "        return self.x", ""]
     for k in range(rng.choice([1, 2])):
-        out += [f"class Child{k}(Base):", f"    kind = {nums()}", "    tag, mark = 'c', 1", "",
+        loop = ["    for _j in (1, 2):", "        if _j > 1:", f"            {rng.choice(['break', 'continue'])}", "        rank = _j", ""] if rng.random() < 0.5 else []
+        out += [f"class Child{k}(Base):", f"    kind = {nums()}", "    tag, mark = 'c', 1", ""] + loop + [
                 "    def __init__(self, x=2):"]
         body = ["        super().__init__(x)", f"        self.y = {nums()}", "        self.z = self.y"]
         if rng.random() < 0.4:
